@@ -8,7 +8,7 @@
    running the three-round composition of the implementation on each accepted document (both paths) and,
    as correspondence, the model's own composition (Transform.roundtrip) against it. *)
 From Verif Require Import Base.Str Base.Outcome Model.Ast Model.Token Model.Parser Model.Listener Model.Printer
-  Model.Transform Spec.Sem Spec.Expressible Proofs.ListenerSem Proofs.ListenerFile Proofs.ParserShape Proofs.RoundTrip.
+  Model.Transform Spec.Sem Spec.Expressible Spec.Normalize Proofs.ListenerSem Proofs.ListenerFile Proofs.ParserShape Proofs.RoundTrip Proofs.Lossless.
 
 (* 1. what the parser can produce for a relation is always printable: carriable, at most one direct assignment,
       and that one in a position from which it can be written first *)
@@ -54,3 +54,16 @@ Proof.
   - f_equal. rewrite map_map. apply map_ext_in. intros x Hx. rewrite Forall_forall in H. auto.
   - congruence.
 Qed.
+
+(* 4. the round trip at the level of parse trees: for every grammatical relation definition d, the text printed
+      for its model is the canonical rendering of a grammatical definition d' with the same denotation — what
+      the parser produces is already in the printer's normal form, so nothing is reordered or collapsed on the
+      way.  (The step from the rendering of d' back to d' — parse (lex (render d')) = d' — is observed, not
+      mechanised.) *)
+Theorem C01_parsed_is_in_normal_form : forall d, wf_rdef d = true -> normalize (sem_rdef d) = sem_rdef d.
+Proof. exact parsed_is_normal. Qed.
+
+Theorem C01_tree_round_trip : forall d refs,
+  wf_rdef d = true -> refs_ok refs ->
+  exists t, print_top (sem_rdef d) refs = Some (t, count_direct (sem_rdef d)) /\ t = render_rdef (rdef_of refs (sem_rdef d)) /\ wf_rdef (rdef_of refs (sem_rdef d)) = true /\ sem_rdef (rdef_of refs (sem_rdef d)) = sem_rdef d.
+Proof. exact parsed_printed_parsed. Qed.
